@@ -182,7 +182,7 @@ def oracle_request(case) -> Result:
                 port = "<raises>"
             if authority is None:
                 # neither Host header nor server address: the URL is path [? query], nothing else
-                if url.hostname is not None or sp["authority"] is not None or port not in (None, "<raises>"):
+                if url.hostname is not None or sp["authority"] not in (None, "") or port not in (None, "<raises>"):  # an EMPTY authority ("//" + "//path") is how a path that begins with "//" is written without a host
                     r.fail(f"C18:{side}:authority-invented", f"{ctx}: str(url) = {str(url)!r} has host {url.hostname!r} port {port!r}; "
                            "the request has neither Host header nor server address")
                 continue
@@ -611,6 +611,9 @@ def request_opt_grid():
     ] + [{"path": f"/a{c}b/{c}/c{c}"} for c in CONTROLS] + [{"root": f"/r{c}t", "path": f"/{c}x"} for c in CONTROLS] + [
         {"path": "/a\r\nb/\t"}, {"root": "/m\n", "path": ""}, {"root": "/m\tn", "path": "/x\n", "omit": list(ASGI_OPTIONAL + WSGI_OPTIONAL), "query": b""},
         {"path": "/a\tb?c\n#d\r%0A"},
+        # paths that begin with (or contain) empty segments: the join between authority and path must not normalise them
+        {"path": "//media//logo.png"}, {"path": "///a"}, {"path": "//"}, {"path": "//static/app.js", "query": b""}, {"root": "/r", "path": "//x"},
+        {"root": "/r/", "path": "//x/"}, {"path": "/a//b//"}, {"path": "//é//中", "omit": list(ASGI_OPTIONAL + WSGI_OPTIONAL), "query": b""},
     ] + [{"path": None, "path_bytes": pb} for pb in PATH_BYTES] + [{"path": None, "path_bytes": PATH_BYTES[1], "root": "/é"}]
     for scheme in ("http", "https", "ws", "wss"):
         for server in (None, ["example.org", None], ["::1", None], ["example.org", DEFAULT[scheme]], ["example.org", 8000], ["fe80::1", 8443]):
